@@ -702,7 +702,19 @@ func runParent(args []string) int {
 	cov["workers"] = total
 	if len(merged.Notes) > 0 {
 		if len(merged.Notes) > 20 {
-			merged.Notes = merged.Notes[:20]
+			// what was cut short matters most: those notes first
+			var first, rest []string
+			for _, n := range merged.Notes {
+				if strings.HasPrefix(n, "incomplete:") {
+					first = append(first, n)
+				} else {
+					rest = append(rest, n)
+				}
+			}
+			merged.Notes = append(first, rest...)
+			if len(merged.Notes) > 24 {
+				merged.Notes = merged.Notes[:24]
+			}
 		}
 		cov["notes"] = merged.Notes
 	}
